@@ -102,8 +102,8 @@ type Client struct {
 }
 
 func (c *Client) NextURL() *URL {
-	atomic.AddUint64(&c.reqCounter, 1)
-	next := c.reqCounter % uint64(len(c.urls))
+	n := atomic.AddUint64(&c.reqCounter, 1)
+	next := n % uint64(len(c.urls))
 	return c.urls[next]
 }
 
